@@ -84,7 +84,7 @@ def markers(names):
     return out
 
 
-def batch(project, root, lk, rel=False):
+def batch(project, root, lk, rel=False, layout='flat', entries=False):
     """the request batch through main; returns (canonical reply, markers)"""
     from supp import assistant, linter
     mainfile = os.path.join(root, 'main.py')
@@ -92,9 +92,11 @@ def batch(project, root, lk, rel=False):
     mk = set()
 
     def call(f, *a):
-        with project.check_changes():
+        # `project` is a Project (the long-lived one) or a factory (a newly created project for EVERY request)
+        pr = project() if callable(project) else project
+        with pr.check_changes():
             try:
-                return ['ok', f(project, *a)]
+                return ['ok', f(pr, *a)]
             except Exception as e:  # noqa
                 return ['exc', type(e).__name__, str(e)]
     # names of mb
@@ -113,6 +115,12 @@ def batch(project, root, lk, rel=False):
         src = 'import mb\n%s\n' % e
         r = call(assistant.location, src, (2, len(e) - 1), mainfile)
         reply.append(['loc%d' % depth, r])
+    # requests that enter the project through the other modules (a different entry point into an import cycle)
+    for m in (('md', 'mc') if entries else ()):
+        mod = ('pk.' + m) if layout == 'pkg' else m
+        src = 'import %s as zz\nzz.' % mod
+        r = call(assistant.assist, src, (2, 3), mainfile)
+        reply.append(['names-' + m, r])
     src = 'from mb import *\nprint(mb_tag, mc_tag, md_tag)\n'
     r = call(lambda p, s, f: [x[:4] for x in linter.lint(p, s, f)], src, mainfile)
     reply.append(['lint', r])
@@ -190,8 +198,8 @@ def run_job(job, root):
             touch(op[1])
             events.append({'op': 'touch', 'm': op[1], 'ver': disk[op[1]]})
         else:
-            lrep, lmk = batch(long_project, root, lk)
-            frep, fmk = batch(Project([root]), root, lk)
+            lrep, lmk = batch(long_project, root, lk, layout=layout, entries=job.get('back', False))
+            frep, fmk = batch(lambda: Project([root]), root, lk, layout=layout, entries=job.get('back', False))
             lc, fc = canon(lrep, root), canon(frep, root)
             ev = {'op': 'request', 'long': hashlib.sha1(lc.encode()).hexdigest(), 'fresh': hashlib.sha1(fc.encode()).hexdigest(),
                   'lm': sorted(map(list, lmk)), 'fm': sorted(map(list, fmk))}
